@@ -133,8 +133,9 @@ structure SaneN (nxt : Nat → Option Nat) (hd : Nat → Nat) (c : Nat) (d : Nod
   pendR : ∀ r ∈ d.pending, r ≤ d.head
   heldP : HeldP nxt hd c d.held
   heldH : ∀ r k x, d.held r k = some x → d.head < r
-  heldE : ∀ r k x, d.held r k = some x → x = d.vault.epoch
-  pendOk : ∀ p, d.pend = some p → ∃ t, nxt d.vault.epoch = some t ∧ t ≤ p.target + 1
+  /-- only for a node whose cache keeps the FIRST partial of an index: with "newest wins" nothing is required -/
+  heldE : d.replace = false → ∀ r k x, d.held r k = some x → x = d.vault.epoch
+  pendOk : d.replace = false → ∀ p, d.pend = some p → ∃ t, nxt d.vault.epoch = some t ∧ t ≤ p.target + 1
 
 theorem HeldP.mono {nxt : Nat → Option Nat} {hd hd' : Nat → Nat} {c c' : Nat} {held : Nat → Nat → Option Nat}
     (h : HeldP nxt hd c held) (hm : ∀ k, hd k ≤ hd' k) (hc : c ≤ c') : HeldP nxt hd' c' held :=
@@ -170,9 +171,9 @@ theorem SaneN.mono {nxt : Nat → Option Nat} {hd hd' : Nat → Nat} {c : Nat} {
 /-- a node that differs only in fields the invariant does not read (`up`, `syncTo`, `disk`) -/
 theorem SaneN.frame {nxt : Nat → Option Nat} {hd : Nat → Nat} {c : Nat} {d d' : Node} (h : SaneN nxt hd c d)
     (h1 : d'.clock = d.clock) (h2 : d'.head = d.head) (h3 : d'.lastTick = d.lastTick) (h4 : d'.pending = d.pending)
-    (h5 : d'.held = d.held) (h6 : d'.vault = d.vault) (h7 : d'.pend = d.pend) : SaneN nxt hd c d' :=
+    (h5 : d'.held = d.held) (h6 : d'.vault = d.vault) (h7 : d'.pend = d.pend) (h8 : d'.replace = d.replace) : SaneN nxt hd c d' :=
   ⟨h1 ▸ h.clk, h2 ▸ h.headC, h3 ▸ h.tickC, by rw [h4, h3]; exact h.pendC, by rw [h4, h2]; exact h.pendR,
-   h5 ▸ h.heldP, by rw [h5, h2]; exact h.heldH, by rw [h5, h6]; exact h.heldE, by rw [h7, h6]; exact h.pendOk⟩
+   h5 ▸ h.heldP, by rw [h5, h2]; exact h.heldH, by rw [h8, h5, h6]; exact h.heldE, by rw [h8, h7, h6]; exact h.pendOk⟩
 
 /-- the invariant of a run of `Put`s (a sync stream) before the cache is flushed: the cached partials are of the
 current epoch OR not above the head any more -/
@@ -182,36 +183,39 @@ structure PutInv (nxt : Nat → Option Nat) (hd : Nat → Nat) (c : Nat) (d : No
   pendC : ∀ r ∈ d.pending, r < d.lastTick
   pendR : ∀ r ∈ d.pending, r ≤ d.head
   heldP : HeldP nxt hd c d.held
-  heldE : ∀ r k x, d.held r k = some x → x = d.vault.epoch ∨ r ≤ d.head
-  pendOk : ∀ p, d.pend = some p → ∃ t, nxt d.vault.epoch = some t ∧ t ≤ p.target + 1
+  heldE : d.replace = false → ∀ r k x, d.held r k = some x → x = d.vault.epoch ∨ r ≤ d.head
+  pendOk : d.replace = false → ∀ p, d.pend = some p → ∃ t, nxt d.vault.epoch = some t ∧ t ≤ p.target + 1
 
 theorem SaneN.putInv {nxt : Nat → Option Nat} {hd : Nat → Nat} {c : Nat} {d : Node} (h : SaneN nxt hd c d) :
     PutInv nxt hd c d :=
-  ⟨h.clk, h.tickC, h.pendC, h.pendR, h.heldP, fun r k x hx => Or.inl (h.heldE r k x hx), h.pendOk⟩
+  ⟨h.clk, h.tickC, h.pendC, h.pendR, h.heldP, fun hr r k x hx => Or.inl (h.heldE hr r k x hx), h.pendOk⟩
 
 theorem putInv_put {nxt : Nat → Option Nat} {hd : Nat → Nat} {c : Nat} {d : Node} (h : PutInv nxt hd c d) (r : Nat) :
     PutInv nxt hd c (d.put r) := by
   have hf := put_frame d r
   obtain ⟨f1, f2, f3, f4, f5, f6, f7, f8, f9⟩ := hf
+  have hrp : (d.put r).replace = false → d.replace = false := fun hr => (put_replace d r) ▸ hr
   refine ⟨f2.trans h.clk, by rw [f5]; exact h.tickC, by rw [f6, f5]; exact h.pendC,
     fun x hx => Nat.le_trans (h.pendR x (f6 ▸ hx)) f8, by rw [f3]; exact h.heldP, ?_, ?_⟩
-  · intro r' k x hx
+  · intro hr r' k x hx
+    have hr' := hrp hr
     rw [f3] at hx
-    rcases put_vault_cases d r with ⟨hv, _⟩ | ⟨p, hp, hr, htg, hv, _⟩
+    rcases put_vault_cases d r with ⟨hv, _⟩ | ⟨p, hp, hr1, htg, hv, _⟩
     · rw [hv]
-      rcases h.heldE r' k x hx with h1 | h1
+      rcases h.heldE hr' r' k x hx with h1 | h1
       · exact Or.inl h1
       · exact Or.inr (Nat.le_trans h1 f8)
     · right
-      rcases h.heldE r' k x hx with h1 | h1
-      · obtain ⟨t, ht, htl⟩ := h.pendOk p hp
+      rcases h.heldE hr' r' k x hx with h1 | h1
+      · obtain ⟨t, ht, htl⟩ := h.pendOk hr' p hp
         have := (h.heldP r' k x hx).2.2 t (h1 ▸ ht)
-        have hh : (d.put r).head = r := put_next d r hr
+        have hh : (d.put r).head = r := put_next d r hr1
         omega
       · exact Nat.le_trans h1 f8
-  · intro p hp
+  · intro hr p hp
+    have hr' := hrp hr
     rcases put_vault_cases d r with ⟨hv, hpe⟩ | ⟨_, _, _, _, _, hpe⟩
-    · rw [hv]; exact h.pendOk p (hpe ▸ hp)
+    · rw [hv]; exact h.pendOk hr' p (hpe ▸ hp)
     · rw [hpe] at hp; cases hp
 
 theorem putInv_foldl {nxt : Nat → Option Nat} {hd : Nat → Nat} {c : Nat} : ∀ (l : List Nat) (d : Node),
@@ -226,9 +230,9 @@ theorem PutInv.flushed {nxt : Nat → Option Nat} {hd : Nat → Nat} {c : Nat} {
     (hc : d.head ≤ c) : SaneN nxt hd c (d.setHeld (flush d.held d.head)) := by
   refine ⟨h.clk, hc, h.tickC, h.pendC, h.pendR, h.heldP.flush _, ?_, ?_, h.pendOk⟩
   · intro r k x hx; exact (flush_entry hx).1
-  · intro r k x hx
+  · intro hr r k x hx
     obtain ⟨h1, h2⟩ := flush_entry hx
-    rcases h.heldE r k x h2 with h3 | h3
+    rcases h.heldE hr r k x h2 with h3 | h3
     · exact h3
     · exact absurd h1 (by omega)
 
@@ -250,10 +254,10 @@ theorem saneN_aggregate {nxt : Nat → Option Nat} {hd : Nat → Nat} {c B : Nat
     (h1 : r ≤ c) (h2 : BR hd r) (h3 : ep = d.vault.epoch) (h4 : InLife nxt ep r) :
     SaneN nxt hd c (d.aggregate B idx ep r) := by
   have hadd : HeldP nxt hd c (d.cacheAdd r idx ep) := h.heldP.cacheAdd r idx ep h1 h2 h4
-  have haddE : ∀ r' k x, d.cacheAdd r idx ep r' k = some x → x = d.vault.epoch := by
-    intro r' k x hx
+  have haddE : d.replace = false → ∀ r' k x, d.cacheAdd r idx ep r' k = some x → x = d.vault.epoch := by
+    intro hr r' k x hx
     rcases cacheAdd_entry hx with ho | ⟨_, _, e3⟩
-    · exact h.heldE r' k x ho
+    · exact h.heldE hr r' k x ho
     · rw [e3, h3]
   have haddH : d.head < r → ∀ r' k x, d.cacheAdd r idx ep r' k = some x → d.head < r' := by
     intro hlt r' k x hx
@@ -268,10 +272,10 @@ theorem saneN_aggregate {nxt : Nat → Option Nat} {hd : Nat → Nat} {c B : Nat
   · rw [he]
     refine ⟨h.clk, h.headC, h.tickC, h.pendC, h.pendR, hadd.flush r, ?_, ?_, h.pendOk⟩
     · intro r' k x hx; exact haddH hlt r' k x (flush_entry hx).2
-    · intro r' k x hx; exact haddE r' k x (flush_entry hx).2
+    · intro hr r' k x hx; exact haddE hr r' k x (flush_entry hx).2
   · -- the round is stored: Put, callback, catch-up goroutine
     have hd1 : PutInv nxt hd c (d.setHeld (flush (d.cacheAdd r idx ep) r)) :=
-      ⟨h.clk, h.tickC, h.pendC, h.pendR, hadd.flush r, fun r' k x hx => Or.inl (haddE r' k x (flush_entry hx).2), h.pendOk⟩
+      ⟨h.clk, h.tickC, h.pendC, h.pendR, hadd.flush r, fun hr r' k x hx => Or.inl (haddE hr r' k x (flush_entry hx).2), h.pendOk⟩
     have hd2 := putInv_put hd1 r
     have hhead : ((d.setHeld (flush (d.cacheAdd r idx ep) r)).put r).head = r := put_next _ r (by simp [hr])
     have hheld : ((d.setHeld (flush (d.cacheAdd r idx ep) r)).put r).held = flush (d.cacheAdd r idx ep) r :=
@@ -296,9 +300,9 @@ theorem saneN_aggregate {nxt : Nat → Option Nat} {hd : Nat → Nat} {c B : Nat
       have hx' : ((d.setHeld (flush (d.cacheAdd r idx ep) r)).put r).held r' k = some x := hx
       rw [hheld] at hx'
       exact (flush_entry hx').1
-    · intro r' k x hx
+    · intro hr r' k x hx
       have hx' : ((d.setHeld (flush (d.cacheAdd r idx ep) r)).put r).held r' k = some x := hx
-      rcases hd2.heldE r' k x hx' with h5 | h5
+      rcases hd2.heldE hr r' k x hx' with h5 | h5
       · exact h5
       · rw [hheld] at hx'
         have := (flush_entry hx').1
@@ -362,7 +366,7 @@ theorem saneN_tickStep {nxt : Nat → Option Nat} {hd : Nat → Nat} {c B i : Na
       · exact hp hu
     rcases tickStep_node B i d hu with he | ⟨v, he⟩ <;> rw [he]
     · exact h1
-    · exact h1.frame rfl rfl rfl rfl rfl rfl rfl
+    · exact h1.frame rfl rfl rfl rfl rfl rfl rfl rfl
   · rw [tickStep_down B i d hu]; exact h
 
 theorem fireStep_cases (B i : Nat) (d : Node) :
@@ -536,11 +540,11 @@ theorem maxPeerHead_le_clk {nxt : Nat → Option Nat} {s : State} (hs : Sane nxt
 theorem sane_pull {nxt : Nat → Option Nat} {s : State} (hs : Sane nxt s) (i : Nat) : Sane nxt (s.pull i) := by
   rcases pull_cases s i with he | he | ⟨_, _, v, he⟩ <;> rw [he]
   · exact hs
-  · exact sane_setNode hs i _ ((hs.node i).frame rfl rfl rfl rfl rfl rfl rfl) (Nat.le_refl _)
+  · exact sane_setNode hs i _ ((hs.node i).frame rfl rfl rfl rfl rfl rfl rfl rfl) (Nat.le_refl _)
   · apply sane_setNode hs i
     · have h1 := saneN_appendTo (hs.node i) (min (s.node i).syncTo (s.maxPeerHead i))
         (Nat.le_trans (Nat.min_le_right _ _) (maxPeerHead_le_clk hs i))
-      exact h1.frame rfl rfl rfl rfl rfl rfl rfl
+      exact h1.frame rfl rfl rfl rfl rfl rfl rfl rfl
     · show (s.node i).head ≤ ((s.node i).appendTo _).head
       rw [(appendTo_frame _ _).1]; omega
 
@@ -551,13 +555,14 @@ theorem sane_pull {nxt : Nat → Option Nat} {s : State} (hs : Sane nxt s) (i : 
     node that was told in time has switched by then (`told_signs_in_life`), a leaver has stopped;
   * `send m` (anybody may put a packet on the wire): the packet is a partial that a share holder following the rule above
     could have made (a replay): not beyond the clock, at most one above every head, within its epoch's lifetime;
-  * `announce i v t`: `t` is the round at which node `i`'s current epoch ends
+  * `announce i v t` to a node whose cache keeps the first partial of an index: `t` is the round at which node `i`'s current
+    epoch ends (nothing for a node with "newest wins")
 Everything else — deliveries in any order, drops, syncs, stops, restarts from the files, joins, partitions — is free. -/
 def Ev.sched (nxt : Nat → Option Nat) (s : State) : Ev → Prop
   | .tick i => (s.node i).up = true → InLife nxt (s.node i).vault.epoch (Gen.bnpRound (s.node i).clock (s.node i).head)
   | .fire i => (s.node i).up = true → ∀ r rest, (s.node i).pending = r :: rest → InLife nxt (s.node i).vault.epoch (r + 1)
   | .send m => MsgP nxt s m
-  | .announce i _ t => (s.node i).up = true → nxt (s.node i).vault.epoch = some t
+  | .announce i _ t => (s.node i).up = true → (s.node i).replace = false → nxt (s.node i).vault.epoch = some t
   | _ => True
 
 def Sched (nxt : Nat → Option Nat) : State → List Ev → Prop
@@ -574,13 +579,14 @@ theorem announce_head (c : Cfg) (d : Node) (v : Vault) (t : Nat) : (d.announce c
 
 theorem saneN_clear {nxt : Nat → Option Nat} {hd : Nat → Nat} {c : Nat} {d d' : Node} (h : SaneN nxt hd c d)
     (h1 : d'.clock = d.clock) (h2 : d'.head = d.head) (h3 : d'.lastTick ≤ d.lastTick) (h4 : d'.pending = [])
-    (h5 : d'.held = fun _ _ => none) (h6 : d'.pend = none ∨ (d'.pend = d.pend ∧ d'.vault = d.vault)) : SaneN nxt hd c d' := by
+    (h5 : d'.held = fun _ _ => none) (h6 : d'.pend = none ∨ (d'.pend = d.pend ∧ d'.vault = d.vault)) (h8 : d'.replace = d.replace) :
+    SaneN nxt hd c d' := by
   refine ⟨h1 ▸ h.clk, h2 ▸ h.headC, Nat.le_trans h3 h.tickC, (by rw [h4]; intro r hr; cases hr), (by rw [h4]; intro r hr; cases hr),
-    (by rw [h5]; exact HeldP.empty _ _ _), (by rw [h5]; intro r k x hx; cases hx), (by rw [h5]; intro r k x hx; cases hx), ?_⟩
-  intro p hp
+    (by rw [h5]; exact HeldP.empty _ _ _), (by rw [h5]; intro r k x hx; cases hx), (by rw [h5]; intro _ r k x hx; cases hx), ?_⟩
+  intro hr p hp
   rcases h6 with h6 | ⟨h6, h7⟩
   · rw [h6] at hp; cases hp
-  · rw [h7]; exact h.pendOk p (h6 ▸ hp)
+  · rw [h7]; exact h.pendOk (h8 ▸ hr) p (h6 ▸ hp)
 
 theorem sane_apply {nxt : Nat → Option Nat} {s : State} (hs : Sane nxt s) (e : Ev) (he : e.sched nxt s) : Sane nxt (s.apply e) := by
   cases e with
@@ -634,12 +640,12 @@ theorem sane_apply {nxt : Nat → Option Nat} {s : State} (hs : Sane nxt s) (e :
     exact sane_foldl_recv s.msgs _ hs' hs.msgs
   | pull i => exact sane_pull hs i
   | stop i =>
-    exact sane_setNode hs i _ (saneN_clear (hs.node i) rfl rfl (Nat.le_refl _) rfl rfl (Or.inr ⟨rfl, rfl⟩)) (Nat.le_refl _)
+    exact sane_setNode hs i _ (saneN_clear (hs.node i) rfl rfl (Nat.le_refl _) rfl rfl (Or.inr ⟨rfl, rfl⟩) rfl) (Nat.le_refl _)
   | restart i =>
     simp only [State.apply, State.restart]
     split
     · exact hs
-    · exact sane_setNode hs i _ (saneN_clear (hs.node i) rfl rfl (Nat.zero_le _) rfl rfl (Or.inl rfl)) (Nat.le_refl _)
+    · exact sane_setNode hs i _ (saneN_clear (hs.node i) rfl rfl (Nat.zero_le _) rfl rfl (Or.inl rfl) rfl) (Nat.le_refl _)
   | setConn c => exact ⟨hs.node, hs.msgs⟩
   | send m =>
     refine ⟨hs.node, fun m' hm' => ?_⟩
@@ -654,34 +660,35 @@ theorem sane_apply {nxt : Nat → Option Nat} {s : State} (hs : Sane nxt s) (e :
       unfold Node.announce
       by_cases hu : (s.node i).up = true
       · simp only [hu, Bool.not_true, Bool.false_eq_true, if_false]
-        have hn := he hu
         by_cases hc : (s.cfg.lateSwitch && decide (Gen.transitionTarget t ≤ (s.node i).head)) = true
-        · -- the switch at once: nothing of the old epoch is left above the head
+        · -- the switch at once: for a first-wins node nothing of the old epoch is left above the head
           simp only [hc, if_true]
           have hle : Gen.transitionTarget t ≤ (s.node i).head := by
             simp only [Bool.and_eq_true, decide_eq_true_eq] at hc; exact hc.2
-          have hempty : ∀ r k x, (s.node i).held r k = some x → False := by
-            intro r k x hx
+          have hempty : (s.node i).replace = false → ∀ r k x, (s.node i).held r k = some x → False := by
+            intro hr r k x hx
+            have hn := he hu hr
             have h1 := h.heldH r k x hx
-            have h2 := (h.heldP r k x hx).2.2 t (by rw [h.heldE r k x hx]; exact hn)
+            have h2 := (h.heldP r k x hx).2.2 t (by rw [h.heldE hr r k x hx]; exact hn)
             simp only [Gen.transitionTarget] at hle
             omega
           exact ⟨h.clk, h.headC, h.tickC, h.pendC, h.pendR, h.heldP, h.heldH,
-            fun r k x hx => (hempty r k x hx).elim, fun p hp => by cases hp⟩
+            fun hr r k x hx => (hempty hr r k x hx).elim, fun _ p hp => by cases hp⟩
         · simp only [hc]
           refine ⟨h.clk, h.headC, h.tickC, h.pendC, h.pendR, h.heldP, h.heldH, h.heldE, ?_⟩
-          intro p hp
+          intro hr p hp
+          have hn := he hu hr
           have : p = ⟨Gen.transitionTarget t, v⟩ := by injection hp with hp; exact hp.symm
           rw [this]
           exact ⟨t, hn, by simp only [Gen.transitionTarget]; omega⟩
       · simp only [hu, Bool.not_false, if_true]
-        exact h.frame rfl rfl rfl rfl rfl rfl rfl
+        exact h.frame rfl rfl rfl rfl rfl rfl rfl rfl
     · rw [announce_head]; exact Nat.le_refl _
   | join i v =>
     simp only [State.apply, State.join]
     split
     · exact hs
-    · exact sane_setNode hs i _ (saneN_clear (hs.node i) rfl rfl (Nat.zero_le _) rfl rfl (Or.inl rfl)) (Nat.le_refl _)
+    · exact sane_setNode hs i _ (saneN_clear (hs.node i) rfl rfl (Nat.zero_le _) rfl rfl (Or.inl rfl) rfl) (Nat.le_refl _)
 
 theorem sane_run {nxt : Nat → Option Nat} : ∀ (evs : List Ev) (s : State), Sane nxt s → Sched nxt s evs → Sane nxt (s.run evs) := by
   intro evs
@@ -703,7 +710,7 @@ theorem sane_init (nxt : Nat → Option Nat) (cfg : Cfg) (n nIdx : Nat) (g : Grp
     rw [hc]
     exact ⟨h1, (by rw [h2]; exact Nat.le_refl _), (by rw [h3]; exact Nat.le_refl _), (by rw [h4]; intro r hr; cases hr),
       (by rw [h4]; intro r hr; cases hr), (by rw [h5]; exact HeldP.empty _ _ _), (by rw [h5]; intro r k x hx; cases hx),
-      (by rw [h5]; intro r k x hx; cases hx), (by rw [h6]; intro p hp; cases hp)⟩
+      (by rw [h5]; intro _ r k x hx; cases hx), (by rw [h6]; intro _ p hp; cases hp)⟩
   simp only [State.init]
   split <;> exact hn _ rfl rfl rfl rfl rfl rfl
 
